@@ -165,6 +165,7 @@ pub fn p1_configs(tier: Tier) -> Vec<(Tcp2Cfg, u32)> {
         (Tcp2Cfg { len: [60, 0], rx: [64, 16], ..b("c13-rx16") }, k),
         (Tcp2Cfg { len: [60, 20], keep_alive_ms: Some(700), timeout_ms: Some(5000), ..b("c13-keepalive-timeout") }, k),
         (Tcp2Cfg { len: [40, 10], nagle: false, ack_delay: false, ..b("c13-noackdelay") }, k),
+        (Tcp2Cfg { len: [30, 0], keep_alive_ms: Some(300), allow_set_keepalive: true, allow_stall: false, ..b("c13-keepalive-toggled") }, k),
         (Tcp2Cfg { len: [60, 20], eth: true, ..b("c13-eth") }, k),
         (Tcp2Cfg { len: [60, 20], eth: true, v6: true, mtu: 1280, ..b("c13-eth-v6") }, k),
         (Tcp2Cfg { len: [60, 20], eth: true, slaac: true, ..b("c13-eth-slaac") }, k),
